@@ -57,7 +57,6 @@ func ScopesFromString(s string) (WitnessScope, error) {
 		Rules.String():           Rules,
 		None.String():            None,
 	}
-	var isGlobal bool
 	for scopeStr := range strings.SplitSeq(s, ",") {
 		scopeStr = strings.TrimSpace(scopeStr)
 
@@ -65,12 +64,10 @@ func ScopesFromString(s string) (WitnessScope, error) {
 		if !ok {
 			return result, fmt.Errorf("invalid witness scope: %v", scopeStr)
 		}
-		if isGlobal && scope != Global {
-			return result, errors.New("'Global' scope can not be combined with other scopes")
-		}
 		result |= scope
-		if scope == Global {
-			isGlobal = true
+		// Whatever the order of the names is.
+		if result&Global != 0 && result != Global {
+			return result, errors.New("'Global' scope can not be combined with other scopes")
 		}
 	}
 	return result, nil
